@@ -44,8 +44,37 @@ def ev(src, env):
 
 # ------------------------------------------------------------------ observable snapshots
 
-def obs(x, depth=0, seen=None):
+def full_state(x):
+    """Like obs, but including private attributes: for frame checks "modifies nothing" means nothing at all."""
+    return obs(x, private=True)
+
+
+def obs(x, depth=0, seen=None, private=False):
     """Deep structural snapshot of everything observable about a value / element / class."""
+    if private:
+        return _obs_private(x, 0, ())
+    return _obs(x, depth, seen)
+
+
+def _obs_private(x, depth, seen):
+    from statham.schema.elements import Element
+    from statham.schema.elements.meta import ObjectMeta
+    if isinstance(x, Element) and not isinstance(x, ObjectMeta) and depth <= 12 and id(x) not in seen:
+        d = {k: _obs_private(v, depth + 1, seen + (id(x),)) for k, v in vars(x).items()}
+        return (type(x).__name__, tuple(sorted(d.items(), key=lambda kv: kv[0])))
+    if isinstance(x, ObjectMeta) and depth <= 12 and id(x) not in seen:
+        d = {k: _obs_private(v, depth + 1, seen + (id(x),)) for k, v in vars(x).items()
+             if not callable(v) and k not in ("__doc__", "__module__", "__dict__", "__weakref__", "__qualname__", "__annotations__")}
+        return ("class", x.__name__, tuple(sorted(d.items(), key=lambda kv: kv[0])))
+    if isinstance(x, dict) and depth <= 12:
+        return (type(x).__name__, tuple((k, _obs_private(v, depth + 1, seen)) for k, v in x.items()),
+                tuple(sorted((k, _obs_private(v, depth + 1, seen)) for k, v in getattr(x, "__dict__", {}).items() if k != "_parent")))
+    if isinstance(x, (list, tuple)) and depth <= 12:
+        return (type(x).__name__, tuple(_obs_private(v, depth + 1, seen) for v in x))
+    return _obs(x, depth, seen)
+
+
+def _obs(x, depth=0, seen=None):
     from statham.schema.constants import NotPassed
     from statham.schema.elements import Element
     from statham.schema.elements.meta import ObjectMeta
@@ -126,7 +155,7 @@ def check_call(contract, fn, args, kwargs=None, ns=None, exc_classes=None):
             pre_conds.append((names, cond, bool(ev(cond, env)), True))
         for names, cond in contract.may_raise:
             pre_conds.append((names, cond, bool(ev(cond, env)), False))
-    before = {k: obs(v) for k, v in bound.arguments.items()}
+    before = {k: full_state(v) for k, v in bound.arguments.items()}
     with warnings.catch_warnings(record=True) as wlist:
         warnings.simplefilter("always")
         try:
@@ -135,7 +164,7 @@ def check_call(contract, fn, args, kwargs=None, ns=None, exc_classes=None):
             if isinstance(e, (KeyboardInterrupt, SystemExit)):
                 raise
             out = Outcome("raise", exc=e)
-    after = {k: obs(v) for k, v in bound.arguments.items()}
+    after = {k: full_state(v) for k, v in bound.arguments.items()}
 
     def viol(clause, detail):
         return {"contract": contract.name, "clause": clause, "detail": detail, "outcome": repr(out),
